@@ -358,7 +358,32 @@ def shape_random(rng):
     return EProg(adts, out, impls, "random")
 
 
-SHAPES = [shape_chain, shape_diamond, shape_cycle, shape_params, shape_structs, shape_random, shape_random]
+
+def shape_selfref(rng):
+    """where-clauses that name the SAME trait with permuted / other arguments, on Self and on the
+    trait's own parameters (each gives a non-tautological implied-bound rule)"""
+    traits = [ETrait(_tr(0))]
+    pool = [
+        lambda n: ETrait(n, 1, [impl_atom(n, var(1), var(0))]),                              # Conv<P0> where P0: Conv<Self>
+        lambda n: ETrait(n, 2, [impl_atom(n, var(0), var(2), var(1))]),                      # Sym<P0,P1> where Self: Sym<P1,P0>
+        lambda n: ETrait(n, 1, [impl_atom(n, var(0), adt("S0"))]),                           # Dflt<P0> where Self: Dflt<S0>
+        lambda n: ETrait(n, 1, [impl_atom(n, var(1), var(0)), _sup(0)]),                     # Conv + supertrait
+        lambda n: ETrait(n, 2, [impl_atom(n, var(1), var(2), var(0))]),                      # Rot<P0,P1> where P0: Rot<P1,Self>
+        lambda n: ETrait(n, 1, [impl_atom(n, var(1), var(1))]),                              # Diag<P0> where P0: Diag<P0>
+    ]
+    for k, mk in enumerate(rng.sample(pool, rng.randint(2, 3))):
+        traits.append(mk(_tr(k + 1)))
+    adts = _std_adts(rng) + [EAdt("B", 1, [impl_atom(traits[1].name, *([var(0)] + [adt("S1")] * traits[1].nextra))], [var(0)])]
+    impls = []
+    for t in traits[1:]:
+        if rng.random() < 0.5:
+            a = [adt(rng.choice(["S0", "S1"])) for _ in range(1 + t.nextra)]
+            impls.append(pg.Impl(0, (t.name, tuple(a))))
+    impls += _base_impls(rng, traits[:1], adts)
+    return EProg(adts, traits, impls, "selfref")
+
+
+SHAPES = [shape_selfref, shape_chain, shape_diamond, shape_cycle, shape_params, shape_structs, shape_random, shape_random]
 
 
 def gen_program(rng, shapes=None) -> EProg:
@@ -459,6 +484,34 @@ class IfGoalGen:
             uargs = tuple([var(1)] + [self.ty(vs, 0) for _ in range(u.nextra)])
             kind = "impl" if self.rng.random() < 0.7 else "fe"
             out.append(("forall", vs, ("if", hs, ("atom", (kind, u.name, uargs)))))
+        return out
+
+    def sweep2(self):
+        """for one trait WITH parameters: hypothesis `X1: T<X2..>` over distinct variables and, as
+        conclusions, the same trait with every arrangement of those variables (and one constant),
+        plus every parameter-free trait on each variable: what the implied bounds of the trait's
+        own where-clauses (also self-referential ones) let us conclude, and what they do not."""
+        ts = [t for t in self.p.traits if t.nextra]
+        if not ts:
+            return []
+        t = self.rng.choice(ts)
+        n = 1 + t.nextra
+        vs = tuple(range(1, n + 1))
+        hs = ((("impl", t.name, tuple(var(v) for v in vs)), ()),)
+        out, seen = [], set()
+        pool = [var(v) for v in vs] + [self.consts[0]]
+        for args in itertools.product(pool, repeat=n):
+            if len(out) >= 14:
+                break
+            if args in seen:
+                continue
+            seen.add(args)
+            kind = "impl" if self.rng.random() < 0.75 else "fe"
+            out.append(("forall", vs, ("if", hs, ("atom", (kind, t.name, tuple(args))))))
+        for u in self.p.traits:
+            if u.nextra == 0:
+                for v in vs:
+                    out.append(("forall", vs, ("if", hs, ("atom", ("impl", u.name, (var(v),))))))
         return out
 
 
@@ -573,8 +626,18 @@ def gen_wf_program(rng):
         p.adts.append(EAdt("D", 0, [], [adt("B", adt(rng.choice(ok_consts)))]))
     bad_consts = [c for c in ("S0", "S1", "S2") if (bound.name, (adt(c),)) not in closed]
     if bad_consts:
-        muts.append(("struct with an ill-formed field type",
-                     lambda q: q.adts.append(EAdt("E", 0, [], [adt("B", adt(bad_consts[0]))]))))
+        bad = adt("B", adt(bad_consts[0]))          # a CLOSED ill-formed type: B<T> where T: bound, and bad_consts[0] is not `bound`
+        muts.append(("struct with a closed ill-formed field type",
+                     lambda q: q.adts.append(EAdt("E", 0, [], [bad]))))
+        muts.append(("parametric struct with a closed ill-formed field type",
+                     lambda q: q.adts.append(EAdt("H", 1, [], [bad, var(0)]))))
+        muts.append(("parametric struct with a closed ill-formed type nested in a field",
+                     lambda q: q.adts.append(EAdt("H", 1, [], [adt("W", bad), adt("W", var(0))]))))
+        muts.append(("struct where-clause about a closed ill-formed type",
+                     lambda q: q.adts.append(EAdt("H", 1, [impl_atom(unary[0].name, bad)], [var(0)]))))
+        muts.append(("impl where-clause about a closed ill-formed type",
+                     lambda q: q.impls.append(pg.Impl(0, (unary[0].name, (adt("W", adt("W", adt("S0"))),)), [(unary[0].name, (bad,))]))))
+        muts = muts + muts[-5:]                      # closed ill-formed types are as likely as all other drops together
     # the circular pattern (finding C21-wf-circular): a where-clause about a bounded type whose own
     # well-formedness is only implied by that where-clause
     if rng.random() < 0.25:
@@ -631,6 +694,15 @@ def corpus_c06():
                           ("atom", ("impl", "Tr4", (var(1),)))))
     g1 = ("forall", (1,), ("if", ((("impl", "Tr1", (var(1), adt("S0"))), ()),), ("atom", ("impl", "Tr4", (var(1),)))))
     out.append((p, [g, g1]))
+    # a where-clause naming the trait itself with swapped arguments: trait Conv<P0> where P0: Conv<Self>
+    p = EProg(_consts(2), [ETrait("Conv", 1, [impl_atom("Conv", var(1), var(0))]),
+                           ETrait("Sym", 2, [impl_atom("Sym", var(0), var(2), var(1))])], [], "corpus-selfref")
+    hyp = ((("impl", "Conv", (var(1), var(2))), ()),)
+    hyp2 = ((("impl", "Sym", (var(1), var(2), adt("S0"))), ()),)
+    out.append((p, [("forall", (1, 2), ("if", hyp, ("atom", ("impl", "Conv", (var(2), var(1)))))),
+                    ("forall", (1, 2), ("if", hyp, ("atom", ("impl", "Conv", (var(1), var(1)))))),
+                    ("forall", (1, 2), ("if", hyp2, ("atom", ("impl", "Sym", (var(1), adt("S0"), var(2)))))),
+                    ("forall", (1, 2), ("if", hyp2, ("atom", ("impl", "Sym", (var(2), var(1), adt("S0"))))))]))
     # F7 within one query: WellFormed over a supertrait / parameter-bound cycle
     p = EProg(_consts(1), [ETrait("Tr0", 0, [impl_atom("Tr1", var(0))]), ETrait("Tr1", 0, [impl_atom("Tr3", var(0), adt("S0"))]),
                            ETrait("Tr2", 0, [impl_atom("Tr1", var(0)), impl_atom("Tr3", var(0), adt("S0"))]),
@@ -648,4 +720,16 @@ def corpus_c21():
               [ETrait("Hash"), ETrait("Bar", 1, [impl_atom("Hash", var(1))]), ETrait("Goo"), ETrait("Foo", 0, [impl_atom("Goo", var(0))])],
               [pg.Impl(1, ("Bar", (adt("Set", var(0)), var(0)))), pg.Impl(1, ("Goo", (adt("Vec", var(0)),)), [("Hash", (var(0),))]),
                pg.Impl(1, ("Foo", (adt("Vec", var(0)),)), [("Bar", (adt("Set", var(0)), var(0)))])], "corpus-wf-circular")
-    return [(p, {"missing": None})]
+    out = [(p, {"missing": None})]
+    # closed ill-formed field types: Set<K> where K: Hash, NotHash is not Hash
+    base = lambda: ([EAdt("NotHash"), EAdt("Set", 1, [impl_atom("Hash", var(0))], [])], [ETrait("Hash")])
+    a, t = base()
+    out.append((EProg(a + [EAdt("Plain", 0, [], [adt("Set", adt("NotHash"))])], t, [], "corpus-closed-field"),
+                {"missing": "closed ill-formed field type"}))
+    a, t = base()
+    out.append((EProg(a + [EAdt("Holder", 1, [], [adt("Set", adt("NotHash")), var(0)])], t, [], "corpus-closed-field"),
+                {"missing": "closed ill-formed field type in a parametric struct"}))
+    a, t = base()
+    out.append((EProg(a + [EAdt("Ok", 0, [], []), EAdt("Holder", 1, [], [adt("Set", adt("Ok")), var(0)])], t,
+                      [pg.Impl(0, ("Hash", (adt("Ok"),)))], "corpus-closed-field"), {"missing": None}))
+    return out
